@@ -71,6 +71,41 @@ def check_effects(ctx, fi, self_cls, shared, in_scope_r1):
     return n
 
 
+def entry_delegation(ctx, rule):
+    """parse/parse_file/build/build_file delegate to parse_stream/build_stream with the same object and keyword context."""
+    # R4: entry points delegate
+    kwfwd = (("**", ("param", "**contextkw")),)
+    fi, paths = own_method_paths(ctx, "Construct", "parse")
+    p = paths[0]
+    subs = [e for e in p.events if e.kind == "SUB"]
+    ok = len(paths) == 1 and len(subs) == 1 and subs[0]["m"] == "parse_stream" and subs[0]["target"] == SELF and tuple(subs[0]["kw"] or ()) == kwfwd \
+        and subs[0]["stream"][0] == "newstream" and subs[0]["stream"][1] == "BytesIO" and subs[0]["stream"][3] == (("param", "data"),) and p.retval == subs[0]["res"]
+    ctx.ob(rule, fi, ok, "parse(data, **kw) == parse_stream(BytesIO(data), **kw)", key="parse")
+    fi, paths = own_method_paths(ctx, "Construct", "parse_file")
+    p = paths[0]
+    subs = [e for e in p.events if e.kind == "SUB"]
+    opens = [e for e in p.events if e.kind == "CALL" and e["func"] == ("free", "open")]
+    ok = len(subs) == 1 and subs[0]["m"] == "parse_stream" and tuple(subs[0]["kw"] or ()) == kwfwd and len(opens) == 1 \
+        and opens[0]["args"][0] == ("param", "filename") and N.is_const(opens[0]["args"][1]) and set(opens[0]["args"][1][2]) == set("rb") \
+        and subs[0]["stream"] == ("with", opens[0]["res"]) and p.retval == subs[0]["res"]
+    ctx.ob(rule, fi, ok, "parse_file opens the file 'rb' and returns parse_stream(f, **kw)", key="parse_file")
+    fi, paths = own_method_paths(ctx, "Construct", "build")
+    p = paths[0]
+    subs = [e for e in p.events if e.kind == "SUB"]
+    ok = len(paths) == 1 and len(subs) == 1 and subs[0]["m"] == "build_stream" and subs[0]["target"] == SELF and tuple(subs[0]["kw"] or ()) == kwfwd \
+        and subs[0]["obj"] == OBJ and subs[0]["stream"][0] == "newstream" and subs[0]["stream"][3] == () and p.retval == ("getvalue", subs[0]["stream"])
+    ctx.ob(rule, fi, ok, "build(obj, **kw) builds into a fresh BytesIO via build_stream and returns its value", key="build")
+    fi, paths = own_method_paths(ctx, "Construct", "build_file")
+    p = paths[0]
+    subs = [e for e in p.events if e.kind == "SUB"]
+    opens = [e for e in p.events if e.kind == "CALL" and e["func"] == ("free", "open")]
+    ok = len(subs) == 1 and subs[0]["m"] == "build_stream" and subs[0]["obj"] == OBJ and tuple(subs[0]["kw"] or ()) == kwfwd and len(opens) == 1 \
+        and opens[0]["args"][0] == ("param", "filename") and N.is_const(opens[0]["args"][1]) and "w" in opens[0]["args"][1][2] and "b" in opens[0]["args"][1][2] \
+        and subs[0]["stream"] == ("with", opens[0]["res"])
+    ctx.ob(rule, fi, ok, "build_file opens the file for binary writing and delegates to build_stream(obj, f, **kw)", key="build_file")
+    ctx.floor(rule, 4)
+
+
 def run(ctx):
     from ..core import Ctx
     M = ctx.model
@@ -104,38 +139,7 @@ def run(ctx):
     if st:
         ctx.rule_stats["C17.R3"] = st
 
-    # R4: entry points delegate
-    rule = "C17.R4"
-    kwfwd = (("**", ("param", "**contextkw")),)
-    fi, paths = own_method_paths(ctx, "Construct", "parse")
-    p = paths[0]
-    subs = [e for e in p.events if e.kind == "SUB"]
-    ok = len(paths) == 1 and len(subs) == 1 and subs[0]["m"] == "parse_stream" and subs[0]["target"] == SELF and tuple(subs[0]["kw"] or ()) == kwfwd \
-        and subs[0]["stream"][0] == "newstream" and subs[0]["stream"][1] == "BytesIO" and subs[0]["stream"][3] == (("param", "data"),) and p.retval == subs[0]["res"]
-    ctx.ob(rule, fi, ok, "parse(data, **kw) == parse_stream(BytesIO(data), **kw)", key="parse")
-    fi, paths = own_method_paths(ctx, "Construct", "parse_file")
-    p = paths[0]
-    subs = [e for e in p.events if e.kind == "SUB"]
-    opens = [e for e in p.events if e.kind == "CALL" and e["func"] == ("free", "open")]
-    ok = len(subs) == 1 and subs[0]["m"] == "parse_stream" and tuple(subs[0]["kw"] or ()) == kwfwd and len(opens) == 1 \
-        and opens[0]["args"][0] == ("param", "filename") and N.is_const(opens[0]["args"][1]) and set(opens[0]["args"][1][2]) == set("rb") \
-        and subs[0]["stream"] == ("with", opens[0]["res"]) and p.retval == subs[0]["res"]
-    ctx.ob(rule, fi, ok, "parse_file opens the file 'rb' and returns parse_stream(f, **kw)", key="parse_file")
-    fi, paths = own_method_paths(ctx, "Construct", "build")
-    p = paths[0]
-    subs = [e for e in p.events if e.kind == "SUB"]
-    ok = len(paths) == 1 and len(subs) == 1 and subs[0]["m"] == "build_stream" and subs[0]["target"] == SELF and tuple(subs[0]["kw"] or ()) == kwfwd \
-        and subs[0]["obj"] == OBJ and subs[0]["stream"][0] == "newstream" and subs[0]["stream"][3] == () and p.retval == ("getvalue", subs[0]["stream"])
-    ctx.ob(rule, fi, ok, "build(obj, **kw) builds into a fresh BytesIO via build_stream and returns its value", key="build")
-    fi, paths = own_method_paths(ctx, "Construct", "build_file")
-    p = paths[0]
-    subs = [e for e in p.events if e.kind == "SUB"]
-    opens = [e for e in p.events if e.kind == "CALL" and e["func"] == ("free", "open")]
-    ok = len(subs) == 1 and subs[0]["m"] == "build_stream" and subs[0]["obj"] == OBJ and tuple(subs[0]["kw"] or ()) == kwfwd and len(opens) == 1 \
-        and opens[0]["args"][0] == ("param", "filename") and N.is_const(opens[0]["args"][1]) and "w" in opens[0]["args"][1][2] and "b" in opens[0]["args"][1][2] \
-        and subs[0]["stream"] == ("with", opens[0]["res"])
-    ctx.ob(rule, fi, ok, "build_file opens the file for binary writing and delegates to build_stream(obj, f, **kw)", key="build_file")
-    ctx.floor(rule, 4)
+    entry_delegation(ctx, "C17.R4")
 
     # R5: start-offset independence -- no amount read, written or skipped depends on the absolute position of the stream
     # (positions may be told, restored and reported; what is consumed or emitted is a function of position *differences* only)
